@@ -528,10 +528,36 @@ def run_guards(prop):
 # ---------------------------------------------------------------------------
 
 
+ONLY = []
+
+
 def tier_families(prop, tier):
     fams = registry.PROPS[prop]["families"]
+    if ONLY:
+        out = []
+        for f in fams:
+            keep = [flt for flt in f["filters"] if any(o in flt or flt in o for o in ONLY)]
+            if keep:
+                g = dict(f)
+                g["filters"] = [o if any(flt in o for flt in keep) and len(o) > max(len(x) for x in keep) else None for o in ONLY]
+                g["filters"] = [x for x in g["filters"] if x] or keep
+                g["min_harnesses"] = 1
+                out.append(g)
+        return out
     if tier == "quick":
-        return [f for f in fams if f.get("tier", "quick") == "quick"]
+        out = []
+        for f in fams:
+            if f.get("tier", "quick") != "quick":
+                continue
+            if f.get("filters_quick"):
+                g = dict(f)
+                g["filters"] = f["filters_quick"]
+                g["min_harnesses"] = f.get("min_harnesses_quick", 1)
+                g["bounds"] = f.get("bounds", "") + " [quick tier: instances " + ", ".join(f["filters_quick"]) + " only; thorough runs all]"
+                out.append(g)
+            else:
+                out.append(f)
+        return out
     # thorough = everything, except quick families explicitly superseded
     sup = set()
     for f in fams:
@@ -638,8 +664,12 @@ def check_property(prop, tier, seed):
         fam = fam_of.get(h, {})
         to = fam.get("timeout_" + tier, fam.get("timeout", 300 if tier == "quick" else 1800))
         # the playback run keeps the whole trace (no formula slicing): give it most of the machine, one at a time
-        tests, plog = extract_playback(prop, h, tdir, outdir, max(to, 1800), 44,
-                                       list(fam.get("kani_args", [])))
+        if fam.get("playback", True):
+            tests, plog = extract_playback(prop, h, tdir, outdir, max(to, 1800), 44,
+                                           list(fam.get("kani_args", [])))
+        else:
+            # measured: the unsliced playback query of this family does not fit the machine
+            tests, plog = [], "(playback not attempted for this family: unsliced query exceeds 44 GB)"
         if not tests:
             # Kani's concrete-playback run keeps the whole trace (no formula slicing) and can exceed
             # the machine on the heavier harnesses.  The solver's verdict on the sliced query stands;
@@ -819,7 +849,7 @@ def write_evidence(prop, tier, seed, fams, results, verdicts, violations, known_
     }
     tmp = os.path.join(EVIDENCE, "%s.json.tmp" % prop)
     json.dump(ev, open(tmp, "w"), indent=1)
-    os.replace(tmp, os.path.join(EVIDENCE, "%s.json" % prop))
+    os.replace(tmp, os.path.join(EVIDENCE, "%s%s.json" % (prop, ".partial" if ONLY else "")))
 
 
 def git_head():
@@ -927,6 +957,9 @@ def main():
     ap.add_argument("--replay")
     ap.add_argument("--list", action="store_true")
     ap.add_argument("--gen", action="store_true", help="only (re)generate src/generated from /repo")
+    ap.add_argument("--only", action="append", default=[],
+                    help="development / seeded-change runs: restrict to harness filters containing this substring "
+                         "(evidence is then written to evidence/<prop>.partial.json, never to the registered file)")
     a = ap.parse_args()
     if a.gen:
         for pr in gen_admission():
@@ -948,6 +981,8 @@ def main():
         seed = int(os.environ.get("VERIF_SEED", "0"))
     except ValueError:
         seed = 0
+    global ONLY
+    ONLY = a.only
     sys.exit(check_property(a.prop, a.tier, seed))
 
 
